@@ -48,7 +48,7 @@ def plan(tier, seed):
 
 def mandatory(tier):
     out = [f"loss/{n}" for n in POINTWISE + ["ncc_loss", "lcc_loss", "wlcc_loss", "mi_loss", "nmi_loss", "dice", "tversky"]]
-    out += [f"mask_shape/{m}" for m in MASK_SHAPES] + ["modules", "D/2", "D/3", "dice/absent_label", "wlcc/source_target_masks", "modules/norm_spellings", "soft_mask", "overlap_reductions", "max_difference/nested", "overlap/binarize", "local/even_kernel", "mi_sampled/N1", "mi_sampled/11"] + [f"overlap/weight_shape/{f}/{t_}" for f in ("N...", "N1...", "NC...") for t_ in ("multiclass", "binary")]
+    out += [f"mask_shape/{m}" for m in MASK_SHAPES] + ["modules", "D/2", "D/3", "dice/absent_label", "wlcc/source_target_masks", "modules/norm_spellings", "soft_mask", "overlap_reductions", "max_difference/nested", "overlap/binarize", "modules/patchwise", "local/even_kernel", "mi_sampled/N1", "mi_sampled/11"] + [f"overlap/weight_shape/{f}/{t_}" for f in ("N...", "N1...", "NC...") for t_ in ("multiclass", "binary")]
     return out
 
 
@@ -387,6 +387,27 @@ def run_item(ctx, item):
         close("MI_module", LM.MI(num_bins=bins)(x1, y1), LF.mi_loss(x1, y1, num_bins=bins), "modules/MI", rel=1e-4)
         close("MI_module_bins_alias", LM.MI(bins=bins)(x1, y1, mask=masks["N1"]), LF.mi_loss(x1, y1, num_bins=bins, mask=masks["N1"]), "modules/MI/mask", rel=1e-4)
         close("NMI_module", LM.NMI(num_bins=bins)(x1, y1), LF.nmi_loss(x1, y1, num_bins=bins), "modules/NMI", rel=1e-4)
+        # option aliases readable under either name
+        ctx.true("module_option_aliases", LM.HuberImageLoss(delta=d).beta == d and LM.HuberImageLoss(beta=d).delta == d and LM.SmoothL1ImageLoss(beta=d).delta == d and LM.SmoothL1ImageLoss(delta=d).beta == d and LM.MI(bins=bins).bins == bins and LM.MI(num_bins=bins).num_bins == bins and LM.NMI(num_bins=bins).normalized is True and LM.MI().normalized is False, key="modules/aliases")
+        if D == 3:
+            # patch-wise evaluation: 2-D patches cut out of the volumes at normalised coordinates, each patch one image
+            # of the batch handed to the wrapped loss; identical volumes give its minimum, the order of arguments is kept
+            import torch.nn.functional as TF
+
+            ctx.bucket("modules/patchwise")
+            P = int(rng.integers(1, 4))
+            zs = rng.uniform(-0.8, 0.8, size=P)
+            yy, xx = np.meshgrid(np.linspace(-0.7, 0.7, 5), np.linspace(-0.6, 0.6, 6), indexing="ij")
+            pts = np.stack([np.stack([xx, yy, np.full_like(xx, z)], axis=-1) for z in zs])[None]  # (1, P, 5, 6, 3)
+            patches = t(np.broadcast_to(pts, (N,) + pts.shape[1:]).copy())
+            for inner_name, inner, fn_ in (("SSD", LM.SSD(), LF.ssd_loss), ("MAE", LM.MAE(norm=False), LF.mae_loss)):
+                pl = LM.PatchwiseImageLoss(patches, inner)
+                sx = TF.grid_sample(x, patches, mode="bilinear", padding_mode="border", align_corners=True)
+                sy = TF.grid_sample(y, patches, mode="bilinear", padding_mode="border", align_corners=True)
+                rs = lambda v: v.permute(0, 2, 1, 3, 4).reshape(N * P, v.shape[1], 1, 5, 6)  # noqa: E731
+                close("patchwise_loss_is_inner_loss_of_sampled_patches", pl(x, y), fn_(rs(sx), rs(sy)), f"modules/patchwise/{inner_name}", rel=1e-4)
+                close("patchwise_loss_of_identical_volumes_is_zero", pl(x, x), torch.zeros(()), f"modules/patchwise/{inner_name}", rel=1e-6)
+                close("patchwise_loss_symmetric", pl(y, x), pl(x, y), f"modules/patchwise/{inner_name}", rel=1e-5)
         # implicit normalisation factor from the images
         from deepali.core.math import max_difference
 
